@@ -369,7 +369,7 @@ pub fn hang_result(i: u64, case: &Value, note: &str) -> Value {
         return json!({"i": i, "verdict": {"v": "inc", "reason": format!("no answer within the time limit in a run that loops; {}", note)},
                "h": 0, "nt": false, "steps": 0, "digest": 0, "case": case, "log": []});
     }
-    json!({"i": i, "verdict": {"v": "fail", "class": "hang:native", "detail": format!("no answer within {} s of wall-clock ({} s when the process was not computing); {}", crate::worker::RUN_TIMEOUT_S, crate::worker::RUN_BLOCKED_S, note)},
+    json!({"i": i, "verdict": {"v": "fail", "class": "hang:native", "detail": format!("no answer within {} s of wall-clock and {} s of its own computing ({} s when the process was not computing); {}", crate::worker::RUN_TIMEOUT_S, crate::worker::RUN_BUSY_S, crate::worker::RUN_BLOCKED_S, note)},
            "h": 0, "nt": true, "steps": 0, "digest": 0, "case": case, "log": []})
 }
 
